@@ -4,6 +4,7 @@ package main
 // (apart from type invariants), no effect on modelled state.
 
 import (
+	"sort"
 	"fmt"
 	"math/big"
 	"go/constant"
@@ -397,10 +398,78 @@ func (f *Frame) lockOp(mu T, acquire bool, pos token.Pos) {
 		if f.checks("lock") {
 			f.oblige("lock", "unlock-held", pos, Select(h, mu))
 		}
+		// leaving the critical section: the lock invariant must hold again (interference mode)
+		f.lockInvariant(mu, true, pos)
 		f.stSet(name, Store(h, mu, False))
 	}
 }
 
-func (f *Frame) acquireHavoc(mu T) {}
+// acquireHavoc (interference mode): entering a critical section, the state guarded by the acquired mutex may have been
+// changed by other threads since this thread last saw it. Every field declared `guarded T.f by mu` of the object whose
+// mutex is acquired gets an arbitrary value (for a slice: also arbitrary contents), and the lock invariant declared
+// with `lockinv T.mu` is assumed for it. The mutex is identified through the inverses of its identity term.
+func (f *Frame) acquireHavoc(mu T) {
+	if !f.p.interference {
+		return
+	}
+	base := App(SInt, "muid_base", mu)
+	fld := App(SInt, "muid_field", mu)
+	var arrs []string
+	for a := range f.p.guards {
+		arrs = append(arrs, a)
+	}
+	sort.Strings(arrs)
+	for _, arr := range arrs {
+		g := f.p.guards[arr]
+		cond := Eq(fld, IntLit(int64(f.p.muID(g.st, g.muIdx))))
+		st, _ := structOf(g.st)
+		ft := st.Field(g.fIdx).Type()
+		_, asort := f.p.fieldArray(g.st, g.fIdx)
+		_, vs := arrParts(asort)
+		f.enc.declSortOf(vs)
+		old := f.stGet(arr, asort)
+		nv := f.enc.declConst(f.enc.fresh(f.sym("guarded_"+st.Field(g.fIdx).Name())), vs)
+		f.stSet(arr, Ite(cond, Store(old, base, nv), old))
+		f.loadFacts(nv, ft)
+		if sl, ok := ft.Underlying().(*types.Slice); ok {
+			es := f.p.sortOf(sl.Elem())
+			f.enc.declSortOf(es)
+			sh := f.p.sliceArray(sl.Elem())
+			shs := ArrSort(SInt, ArrSort(SInt, es))
+			S := f.stGet(sh, shs)
+			inner := f.enc.declConst(f.enc.fresh(f.sym("guarded_contents")), ArrSort(SInt, es))
+			f.stSet(sh, Ite(cond, Store(S, SPtr(nv), inner), S))
+		}
+	}
+	f.lockInvariant(mu, false, token.NoPos)
+	f.enc.assumed["interference mode: on acquiring a mutex the fields it guards hold arbitrary values satisfying the declared lock invariant"] = true
+}
+
+// lockInvariant: assume (acquire) or oblige (release) the invariants declared with `lockinv` for the mutex mu.
+func (f *Frame) lockInvariant(mu T, check bool, pos token.Pos) {
+	if !f.p.interference {
+		return
+	}
+	base := App(SInt, "muid_base", mu)
+	fld := App(SInt, "muid_field", mu)
+	var keys []string
+	for k := range f.p.lockInvs {
+		keys = append(keys, k)
+	}
+	sort.Strings(keys)
+	for _, k := range keys {
+		li := f.p.lockInvs[k]
+		cond := Eq(fld, IntLit(int64(f.p.muID(li.st, li.muIdx))))
+		tr := &Translator{f: f, cur: f.st, old: f.st, bound: map[string]tv{"self": {base, types.NewPointer(li.st)}}}
+		inv := tr.boolExpr(li.cl.Expr)
+		if check {
+			if f.checks("lock") {
+				f.oblige("lock", "invariant-restored("+k+")", pos, Implies(cond, inv))
+			}
+		} else {
+			f.assume(Implies(cond, inv))
+		}
+	}
+}
 
 var _ = fmt.Sprintf
